@@ -439,7 +439,9 @@ package gmars
 //@   modifies nothing
 //@   ensures [C04] (result.1 == nil) != (result.0 == nil)
 //@   ensures [C04] result.1 == nil ==> fresh(result.0) && simInv(result.0) && result.0.warriorCount == 0 && result.0.cycleCount == 0 && result.0.warriorLivingCount == 0
-//@   ensures [C04] result.1 == nil ==> result.0.m == config.CoreSize && result.0.maxProcs == config.Processes && result.0.maxCycles == config.Cycles
+// the configuration reaches the simulator unchanged: core size, process and cycle limits (C02), read / write distances
+// (C01, C11) in every mode, and the '88 listing style only for Mode == ICWS88 (C16)
+//@   ensures [C04][C01][C02][C11][C16] result.1 == nil ==> result.0.m == config.CoreSize && result.0.maxProcs == config.Processes && result.0.maxCycles == config.Cycles
 //@      && result.0.readLimit == config.ReadLimit && result.0.writeLimit == config.WriteLimit && result.0.legacy == (config.Mode == ICWS88)
 
 //@ func NewSimulator
@@ -536,7 +538,7 @@ package gmars
 //@   ensures [C14] forall k :: 0 <= k && k < len(w.Code) ==> result.Code[k] == w.Code[k]
 
 //@ func (*reportSim).addWarrior
-//@   panics [C04][C13]
+//@   panics [C04][C13][C14]
 //@   requires simInv(s) && dataWf(data, s.m)
 //@   modifies s.warriors, s.warriors[*], s.warriorCount
 //@   ensures [C04] simInv(s) && s.warriorCount == old(s.warriorCount) + 1 && result.1 == nil && result.0 == s.warriors[old(s.warriorCount)]
@@ -544,7 +546,7 @@ package gmars
 //@   ensures [C13] forall j :: 0 <= j && j < old(s.warriorCount) ==> s.warriors[j] == old(s.warriors[j])
 
 //@ func (*reportSim).AddWarrior
-//@   panics [C04][C13]
+//@   panics [C04][C13][C14]
 //@   requires simInv(s) && dataWf(data, s.m)
 //@   modifies s.warriors, s.warriors[*], s.warriorCount
 //@   ensures [C04] simInv(s) && s.warriorCount == old(s.warriorCount) + 1 && result.1 == nil
@@ -991,8 +993,33 @@ package gmars
 //@   loop 2
 //@     invariant 0 - 1 <= rangeindex && rangeindex < len(flippedExpr)
 //@     decreases len(flippedExpr) - rangeindex
-//@ trusted (*compiler).loadSymbols
+// loadSymbols: EQU lines bind their labels to the operand text, ORG (and END with an operand) select the entry
+// point expression, instruction labels are bound to their line numbers -- all keywords regardless of letter case
+//@ pure pseudoIs(l sourceLine, w Str) = l.typ == linePseudoOp && lower(l.op) == w
+//@ func (*compiler).loadSymbols
+//@   panics [C05][C03]
+//@   requires c != nil
 //@   modifies c.values, c.labels, c.startExpr
+//@   ensures c.values != nil && c.labels != nil
+//@   loop 1
+//@     invariant 0 - 1 <= rangeindex && rangeindex < len(c.lines) && c.values != nil && c.labels != nil && fresh(c.values) && fresh(c.labels) && c.lines == old(c.lines)
+//@     iteration [C03][C09] pseudoIs(line, "org") ==> c.startExpr == line.a
+//@     iteration [C03][C09] pseudoIs(line, "end") && len(line.a) > 0 ==> c.startExpr == line.a
+//@     iteration [C03][C09] !pseudoIs(line, "org") && !(pseudoIs(line, "end") && len(line.a) > 0) ==> c.startExpr == iter(c.startExpr)
+//@     decreases len(c.lines) - rangeindex
+//@   loop 2
+//@     invariant 0 - 1 <= rangeindex && rangeindex < len(line.labels) && c.values != nil && c.labels != nil && fresh(c.values) && fresh(c.labels) && c.lines == old(c.lines)
+//@     invariant c.startExpr == outer(c.startExpr)
+//@     invariant [C03] forall k :: 0 <= k && k <= rangeindex ==> has(c.values, line.labels[k]) && c.values[line.labels[k]] == line.a
+//@     decreases len(line.labels) - rangeindex
+//@   loop 3
+//@     invariant 0 - 1 <= rangeindex && rangeindex < len(line.labels) && c.values != nil && c.labels != nil && fresh(c.values) && fresh(c.labels) && c.lines == old(c.lines)
+//@     decreases len(line.labels) - rangeindex
+//@   loop 4
+//@     invariant 0 - 1 <= rangeindex && rangeindex < len(line.labels) && c.values != nil && c.labels != nil && fresh(c.values) && fresh(c.labels) && c.lines == old(c.lines)
+//@     invariant c.startExpr == outer(c.startExpr)
+//@     invariant [C03] forall k :: 0 <= k && k <= rangeindex ==> has(c.labels, line.labels[k]) && c.labels[line.labels[k]] == line.codeLine
+//@     decreases len(line.labels) - rangeindex
 //@ func (*compiler).evaluateAssertions
 //@   panics [C05][C07]
 //@   requires c != nil && c.m >= 1 && c.m <= 4294967296
@@ -1006,6 +1033,26 @@ package gmars
 //@   modifies nothing
 //@ trusted expandExpressions
 //@   modifies nothing
+// expandValue resolves one symbol after every symbol it depends on; a symbol resolved once stays resolved. That all
+// dependencies are resolved when the value is substituted -- whatever order the caller's map iteration chose -- is
+// what makes the result independent of that order (C14).
+//@ func expandValue
+//@   panics [C05][C07][C14]
+//@   requires resolved != nil
+//@   modifies resolved[*]
+//@   ensures [C07][C14] result.1 == nil ==> has(resolved, key)
+//@   ensures [C14] forall k: Str :: old(has(resolved, k)) ==> has(resolved, k)
+//@   loop 1
+//@     invariant 0 - 1 <= rangeindex && rangeindex < len(deps) && resolved != nil
+//@     invariant [C14] forall k: Str :: old(has(resolved, k)) ==> has(resolved, k)
+//@     invariant [C07][C14] forall j :: 0 <= j && j <= rangeindex ==> has(resolved, deps[j])
+//@     exit [C07][C14] forall j :: 0 <= j && j < len(deps) ==> has(resolved, deps[j])
+//@     exit header [C07][C14] forall j :: 0 <= j && j < len(deps) ==> has(resolved, deps[j])
+//@     decreases len(deps) - rangeindex
+//@   loop 2
+//@     invariant 0 - 1 <= rangeindex && rangeindex < len(value) && fresh(arr(output)) && resolved != nil
+//@     invariant [C14] forall k: Str :: old(has(resolved, k)) ==> has(resolved, k)
+//@     decreases len(value) - rangeindex
 
 // the value of an operand field: the expression value reduced into [0, M)
 //@ pure modM(v int, m int) = ite(v >= 0, v % m, (m - ((0 - v) % m)) % m)
@@ -1037,6 +1084,9 @@ package gmars
 //@   loop 1
 //@     invariant codeWf2(code, c.m) && fresh(arr(code)) && (c.config.Mode == ICWS88 ==> codeLegal88s(code))
 //@     invariant 0 - 1 <= rangeindex && rangeindex < len(c.lines) && c.m >= 1 && c.m <= 4294967296
+// the assembling loop gives up only when a line fails to assemble (a warrior of exactly the maximum length is
+// not cut short; the length check comes after the loop)
+//@     returns [C09][C06][C03] err != nil
 //@     decreases len(c.lines) - rangeindex
 //@ pure codeWf2(code []Instruction, m int) = forall k :: 0 <= k && k < len(code) ==> wfI(code[k], m)
 //@ pure codeLegal88s(code []Instruction) = forall k :: 0 <= k && k < len(code) ==> legal88(code[k])
